@@ -293,6 +293,25 @@ func c06RuleDefaults(c *Ctx, e *c05Eng, tabs map[string]*c06Table) {
 						}
 					}
 				}
+				// inside the right-hand side of an assignment to the parameter itself (p = oneIfZero(p),
+				// p = max(p, 1), p = p): the result is what the later uses see, and they are checked
+				selfAssign := false
+				for cur := ast.Node(id); cur != nil; cur = parents[cur] {
+					if as, ok := cur.(*ast.AssignStmt); ok {
+						if len(as.Lhs) == 1 && len(as.Rhs) == 1 {
+							if lid, ok := unparen(as.Lhs[0]).(*ast.Ident); ok && cinfo.ObjectOf(lid) == pobj && as.Rhs[0].Pos() <= id.Pos() && id.End() <= as.Rhs[0].End() {
+								selfAssign = true
+							}
+						}
+						break
+					}
+					if _, ok := cur.(ast.Stmt); ok {
+						break
+					}
+				}
+				if selfAssign {
+					return true
+				}
 				nUses++
 				s2 := st.clone()
 				one := c05Atom(shKey).neg()
